@@ -1856,8 +1856,8 @@ Proof.
     destruct (sc path c0 lr (option_map S sl) (k0 + length f + length f0) st). cbn [fst]. rewrite !app_length. cbn. lia.
   - rewrite sc_SWhile. destruct (ec path c0 lr k0 c). destruct (bc path c0 lr (Some 1) (k0 + length f) body). cbn [fst]. rewrite !app_length. cbn. lia.
   - rewrite sc_SFrom. cbv zeta. destruct (ec path c0 (from_lr1 lr name0) k0 a). destruct (ec path c0 (from_lr1 lr name0) (k0 + length f) b).
-    destruct (bc path c0 (S (from_lr1 lr name0)) (Some 1) (k0 + length f + length f0) body).
-    destruct (stepc path c0 (S (from_lr1 lr name0)) (k0 + length f + length f0 + length f1) step). cbn [fst]. rewrite !app_length. cbn. lia.
+    destruct (bc path c0 (S (S (from_lr1 lr name0))) (Some 1) (k0 + length f + length f0) body).
+    destruct (stepc path c0 (S (S (from_lr1 lr name0))) (k0 + length f + length f0 + length f1) step). cbn [fst]. rewrite !app_length. cbn. lia.
   - cbn. lia.
   - cbn. lia.
   - destruct e as [e|]; [|cbn; lia]. rewrite sc_Return. destruct (ec path c0 lr k0 e). cbn [fst]. rewrite app_length. cbn. lia.
@@ -2858,6 +2858,16 @@ Proof.
   - inversion H; subst. auto.
 Qed.
 
+Lemma dec_delete3 : forall x y z, decode (mkI OP_DELETE_NAME_SCOPED [x; y; z]) = DOk (DDelete [x; y; z]).
+Proof. reflexivity. Qed.
+Lemma exec_delete3 : forall x y z a g f fs cx cy cz, frames g = f :: fs -> x <> y -> x <> z -> y <> z ->
+  assoc x (vars f) = Some cx -> assoc y (vars f) = Some cy -> assoc z (vars f) = Some cz ->
+  exec_d (DDelete [x; y; z]) a g =
+  SNext a (with_frames g ({| lab := lab f; vars := assoc_del z (assoc_del y (assoc_del x (vars f))) |} :: fs)).
+Proof.
+  intros x y z a g f fs cx cy cz Hf Hxy Hxz Hyz Hx Hy Hz. unfold exec_d. rewrite Hf. cbn [delete_names]. rewrite Hx.
+  rewrite assoc_del_other by congruence. rewrite Hy. rewrite !assoc_del_other by congruence. rewrite Hz. reflexivity.
+Qed.
 Lemma from_sim : forall ea eb incl step nm collide body, bspec body -> sspec (SFrom ea eb incl step nm collide body).
 Proof.
   intros ea eb incl step nm collide body Hbody b B lr il sl bt ct k0 fuel kp a g env s B' rets Hfu Hk Hb Hinst Hc Hend Hlc Hlrk Hip Hcb Hops Hss HC.
@@ -2865,18 +2875,18 @@ Proof.
   destruct (kstmt_SFrom_parts SF il B CD ea eb incl step nm collide body _ Hk) as (Ea & Ebk & _).
   destruct fuel as [|fuel]; [exact Logic.I|]. rewrite exec_SFrom.
   rewrite sc_SFrom in *. cbv zeta in *.
-  set (idn := from_idn lr nm) in *. set (lr1 := from_lr1 lr nm) in *. set (endr := lregn (S lr1)) in *.
+  set (idn := from_idn lr nm) in *. set (lr1 := from_lr1 lr nm) in *. set (startr := lregn (S lr1)) in *. set (endr := lregn (S (S lr1))) in *.
   assert (Hlr1 : lr <= lr1) by (unfold lr1; destruct nm; cbn [from_lr1]; lia).
   destruct (ec path c0 lr1 k0 ea) as [ca fa] eqn:Eca.
   destruct (ec path c0 lr1 (k0 + length fa) eb) as [cb_ fb] eqn:Ecb.
-  destruct (bc path c0 (S lr1) (Some 1) (k0 + length fa + length fb) body) as [cbody fbd] eqn:Ebc.
-  destruct (stepc path c0 (S lr1) (k0 + length fa + length fb + length fbd) step) as [cs fs] eqn:Esc.
+  destruct (bc path c0 (S (S lr1)) (Some 1) (k0 + length fa + length fb) body) as [cbody fbd] eqn:Ebc.
+  destruct (stepc path c0 (S (S lr1)) (k0 + length fa + length fb + length fbd) step) as [cs fs] eqn:Esc.
   cbn [fst snd] in *.
   apply (installed_app prog) in Hinst as [Hina Hinst]. apply (installed_app prog) in Hinst as [Hinb Hinst]. apply (installed_app prog) in Hinst as [Hinbd Hins].
   set (la := length ca) in *. set (lb := length cb_) in *. set (lbd := length cbody) in *. set (ls := length cs) in *.
   set (nd := if collide then 0 else 1).
   match type of Hend with kp + length ?L < _ =>
-    assert (Hlen : length L = la + 1 + lb + 1 + 3 + 1 + (lbd + (ls + 1) + 1) + nd)
+    assert (Hlen : length L = la + 1 + lb + 3 + 3 + 1 + (lbd + (ls + 1) + 1) + nd)
       by (rewrite !app_length, resolve_length, !app_length, !map_length; unfold nd; destruct collide; cbn [length]; fold la lb lbd ls; lia)
   end.
   rewrite Hlen in *. clear Hlen.
@@ -2884,6 +2894,8 @@ Proof.
   apply items_at_cons in Hc as [Hi1 Hc]. cbn [item_instr I] in Hi1.
   apply items_at_app in Hc as [Hcb2 Hc]. apply items_at_CI in Hcb2. rewrite map_length in Hc. fold lb in Hc.
   apply items_at_cons in Hc as [Hi3 Hc]. cbn [item_instr I] in Hi3.
+  apply items_at_cons in Hc as [Hi4 Hc]. cbn [item_instr I] in Hi4.
+  apply items_at_cons in Hc as [Hi5 Hc]. cbn [item_instr I] in Hi5.
   apply items_at_cons in Hc as [Hc1 Hc]. apply items_at_cons in Hc as [Hc2 Hc]. apply items_at_cons in Hc as [Hc3 Hc].
   cbn [item_instr I] in Hc1, Hc2, Hc3.
   apply items_at_cons in Hc as [Hw Hc]. cbn [item_instr I] in Hw. apply items_at_app in Hc as [Hfull Hdel].
@@ -2895,9 +2907,9 @@ Proof.
   rewrite ?app_length, ?map_length in Hw. rewrite ?app_length, ?map_length in Hj. rewrite ?app_length, ?map_length in Hdel. rewrite ?app_length, ?map_length in Hib.
   rewrite ?app_length, ?map_length in Hcs. rewrite ?app_length, ?map_length in Hst.
   cbn [length] in Hw, Hj, Hdel, Hib, Hcs, Hst. fold lbd ls in Hw, Hj, Hdel, Hib, Hcs, Hst.
-  set (k1 := kp + la) in *. set (k3 := S k1 + lb) in *. set (kc := S k3) in *.
+  set (k1 := kp + la) in *. set (k3 := S k1 + lb) in *. set (kc := S (S (S k3))) in *.
   set (kw := S (S (S kc))). set (kb := S kw). set (ks := kb + lbd). set (kst := ks + ls). set (kj := S kst). set (kd := S kj). set (fin := kd + nd).
-  assert (Hfin : kp + (la + 1 + lb + 1 + 3 + 1 + (lbd + (ls + 1) + 1) + nd) = fin) by (unfold fin, kd, kj, kst, ks, kb, kw, kc, k3, k1; lia).
+  assert (Hfin : kp + (la + 1 + lb + 3 + 3 + 1 + (lbd + (ls + 1) + 1) + nd) = fin) by (unfold fin, kd, kj, kst, ks, kb, kw, kc, k3, k1; lia).
   rewrite Hfin in *.
   assert (Hw' : nth_error code kw = Some (mkI OP_WHILE_LOOP [sN (lbd + ls + 3)])).
   { replace (lbd + ls + 3) with (lbd + (ls + 1) + 1 + 1) by lia. atp Hw. }
@@ -2911,18 +2923,25 @@ Proof.
   assert (Hc3' : nth_error code (S (S kc)) = Some (mkI OP_BIN_OP [if incl then op_le else op_lt])) by (atp Hc3).
   assert (Hsml : forall j, j <= S (S lr1) -> small j).
   { intros j Hjs. unfold lrok in Hlrk. eapply small_le; [|exact Hlrk]. unfold lr1 in Hjs. destruct nm; cbn [from_lr1] in Hjs; lia. }
+  assert (Hsx0 : forall x0, nm = Some x0 -> uname0 x0).
+  { intros x0 ->. rewrite kstmt_SFrom in Hk. destruct collide;
+      match type of Hk with (if ?c then _ else _) = _ => destruct c eqn:Hc0; [|discriminate] end;
+      rewrite !andb_true_iff in Hc0; destruct Hc0 as [[[[_ _] Hs0] _] _]; exact (src_nameb_ok _ Hs0). }
+  assert (Hse : startr <> endr) by (intros E; apply lregn_inj in E; [lia|apply Hsml; lia|apply Hsml; lia]).
   assert (Hie : idn <> endr).
   { unfold idn, endr, lr1. destruct nm as [x0|]; cbn [from_idn from_lr1].
-    - rewrite kstmt_SFrom in Hk. intros E. destruct collide;
-        match type of Hk with (if ?c then _ else _) = _ => destruct c eqn:Hc0; [|discriminate] end;
-        rewrite !andb_true_iff in Hc0; destruct Hc0 as [[[[_ Hsx0] _] _] _];
-        apply (lregn_not_uname0 (S lr)); rewrite <- E; exact (src_nameb_ok _ Hsx0).
+    - intros E. apply (lregn_not_uname0 (S (S lr))). rewrite <- E. exact (Hsx0 x0 eq_refl).
     - intros E. apply lregn_inj in E; [lia|apply Hsml; unfold lr1; cbn; lia|apply Hsml; unfold lr1; cbn; lia]. }
-  assert (Hlkj : forall j, j <= lr -> lregn j <> endr /\ (nm = None -> lregn j <> idn)).
-  { intros j Hjs. split.
+  assert (His : idn <> startr).
+  { unfold idn, startr, lr1. destruct nm as [x0|]; cbn [from_idn from_lr1].
+    - intros E. apply (lregn_not_uname0 (S lr)). rewrite <- E. exact (Hsx0 x0 eq_refl).
+    - intros E. apply lregn_inj in E; [lia|apply Hsml; unfold lr1; cbn; lia|apply Hsml; unfold lr1; cbn; lia]. }
+  assert (Hlkj : forall j, j <= lr -> lregn j <> endr /\ lregn j <> startr /\ (nm = None -> lregn j <> idn)).
+  { intros j Hjs. split; [|split].
+    - intros E. apply lregn_inj in E; [lia|apply Hsml; lia|apply Hsml; lia].
     - intros E. apply lregn_inj in E; [lia|apply Hsml; lia|apply Hsml; lia].
     - intros ->. unfold idn. cbn [from_idn]. intros E. apply lregn_inj in E; [lia|apply Hsml; unfold lr1; cbn; lia|apply Hsml; unfold lr1; cbn; lia]. }
-  (* the lower bound *)
+  (* ---- the lower bound *)
   pose proof (espec_all ea b B c0 lr1 k0 fuel kp a g env s KD ltac:(lia) Ea Hb) as He. rewrite Eca in He. cbn [fst snd] in He. fold la in He.
   specialize (He Hina ltac:(unfold fin, kd, kj, kst, ks, kb, kw, kc, k3, k1 in *; lia) Hca ltac:(unfold fin, kd, kj, kst, ks, kb, kw, kc, k3, k1 in *; lia) Hip Hcb Hops HC).
   fold k1 in He.
@@ -2934,6 +2953,69 @@ Proof.
   assert (Hss1 : a_ss a1 = a_ss a) by (unfold mid, rest in M1; destruct M1 as (_ & _ & _ & _ & S1 & _); exact S1).
   pose proof (Cl_ne _ _ _ _ _ _ _ _ _ _ _ _ _ HC) as Hne.
   destruct (locals env) as [|sc0 l'] eqn:El; [congruence|].
+  (* ---- store_fast L#start: the lower bound waits in a register while the upper bound is evaluated *)
+  destruct (store_fast_reg b1 B env s1 a1 g1 k1 startr (inj va) Hi1 Hip1 Hops1 HC1 (lregn_not_uname0 _)) as (f1 & R & g2 & Ef1 & R2 & HC2 & Ef2 & Ec2 & Eo2 & Hn2).
+  set (c's := N.of_nat (length (cells g1))) in *. set (a2 := upd a1 (S k1) []) in *.
+  assert (SM2 : smid b1 s1 a1 g1 b1 s1 a2 g2) by (eapply smid_bind; [exact R2|exact Ef1|exact Ef2|exact Ec2|repeat split|reflexivity]).
+  (* ---- the upper bound: no counter exists yet, on either side *)
+  pose proof (espec_all eb b1 B c0 lr1 (k0 + length fa) fuel (S k1) a2 g2 env s1 KD ltac:(lia) Ebk Hb) as Heb. rewrite Ecb in Heb. cbn [fst snd] in Heb. fold lb in Heb.
+  specialize (Heb Hinb ltac:(unfold fin, kd, kj, kst, ks, kb, kw, kc, k3 in *; lia) Hcb2 ltac:(unfold fin, kd, kj, kst, ks, kb, kw, kc, k3 in *; lia)
+                  eq_refl ltac:(cbn [a2 upd set_ip set_ops a_cb]; exact Hcb1) eq_refl HC2).
+  fold k3 in Heb.
+  destruct (eval fuel env eb s1) as [vb s2|s2|f s2|]; cbn [eres_ok spost] in Heb |- *; [|exact Logic.I| |exact Logic.I].
+  2:{ eapply fail_post_map; [|exact Heb]. intros (e0 & g' & Hf & Hr). exists e0, g'.
+      split; [eapply smid_fail; [exact SM1|]; eapply smid_fail; [exact SM2|exact Hf]|exact Hr]. }
+  apply eres_val_inv in Heb. destruct Heb as (a3 & g3 & b2 & wb & M3 & Hip3 & Hops3 & HC3 & [Hfob ->]).
+  destruct va as [i0|?|?| |? ? ?]; try exact Logic.I.
+  destruct vb as [hi|?|?| |? ? ?]; try exact Logic.I. cbn [inj] in *.
+  pose proof (smid_of_mid _ _ _ _ _ _ _ _ _ M3) as SM3. pose proof (lk_mid lr _ _ _ _ _ _ _ _ _ M3) as LK3.
+  unfold mid, rest in M3. destruct M3 as (R3 & E3 & T3 & A3 & S3 & K3 & F3 & L3).
+  assert (Hcs2 : cell_get g2 c's = Some (VInt i0)).
+  { unfold cell_get, c's. rewrite Ec2, Nnat.Nat2N.id, nth_error_app2, Nat.sub_diag by lia. reflexivity. }
+  assert (Hcs3 : cell_get g3 c's = Some (VInt i0)) by exact (K3 _ _ Hcs2 Hn2).
+  destruct (frames g3) as [|f3 R3'] eqn:Ef3; [exact (False_ind _ (proj2 (Rfr2_ne _ _ _ _ (cl_fr _ _ _ _ _ _ _ _ _ _ _ _ _ HC3)) Ef3))|].
+  assert (ER : R3' = R) by (rewrite Ef2 in T3; exact T3). subst R3'.
+  assert (Hnrs : ~ own_reg c0 startr) by (intros (k & _ & _ & E); exact (lregn_not_reg _ _ E)).
+  assert (Hax3 : assoc startr (vars f3) = Some c's).
+  { pose proof (proj2 (F3 startr Hnrs)) as H. rewrite Ef3, Ef2 in H. cbn [top_vars vars] in H. rewrite H. apply assoc_set_same. }
+  (* ---- store_fast L#end *)
+  destruct (store_fast_reg b2 B env s2 a3 g3 k3 endr (VInt hi) Hi3 Hip3 Hops3 HC3 (lregn_not_uname0 _)) as (f3' & R' & g4 & Ef3' & R4 & HC4 & Ef4 & Ec4 & Eo4 & Hn4).
+  rewrite Ef3 in Ef3'. inversion Ef3'; subst f3' R'. clear Ef3'.
+  set (ce := N.of_nat (length (cells g3))) in *. set (a4 := upd a3 (S k3) []) in *.
+  set (F4 := {| lab := lab f3; vars := assoc_set endr ce (vars f3) |}) in *.
+  assert (SM4 : smid b2 s2 a3 g3 b2 s2 a4 g4) by (eapply smid_bind; [exact R4|exact Ef3|exact Ef4|exact Ec4|repeat split|reflexivity]).
+  assert (HaeF4 : assoc endr (vars F4) = Some ce) by (unfold F4; cbn [vars]; apply assoc_set_same).
+  assert (HasF4 : assoc startr (vars F4) = Some c's) by (unfold F4; cbn [vars]; rewrite assoc_set_other by exact Hse; exact Hax3).
+  assert (Hlt3 : N.to_nat c's < length (cells g3)) by (apply nth_error_Some; unfold cell_get in Hcs3; congruence).
+  assert (Hcs4 : cell_get g4 c's = Some (VInt i0)).
+  { unfold cell_get in *. rewrite Ec4, nth_error_app1 by exact Hlt3. exact Hcs3. }
+  assert (Hce4 : cell_get g4 ce = Some (VInt hi)).
+  { unfold cell_get, ce. rewrite Ec4, Nnat.Nat2N.id, nth_error_app2, Nat.sub_diag by lia. reflexivity. }
+  (* ---- load_fast L#start: the first value of the counter *)
+  set (i_l := mkI OP_LOAD_FAST [startr]) in *.
+  set (g5 := trc name a4 g4 i_l).
+  set (a5 := set_ip (set_ops a4 [VInt i0]) (S (a_ip a4))).
+  assert (R5 : xrun prog name code a4 g4 a5 g5).
+  { eapply (xstep_next prog name code a4 g4 i_l _ (a_ip a4) (set_ops a4 [VInt i0])); [reflexivity|cbn [a4 upd set_ip a_ip]; exact Hi4|apply dec_load_fast|].
+    exact (exec_load_fast startr a4 g5 c's (VInt i0) ltac:(change (frames g5) with (frames g4); rewrite Ef4; cbn [find_in_function]; now rewrite HasF4) Hcs4). }
+  assert (HC5 : ClA b2 B env s2 g5) by (apply Cl_trc; exact HC4).
+  assert (Ef5 : frames g5 = F4 :: R) by exact Ef4.
+  assert (Hip5 : a_ip a5 = S (S k3)) by reflexivity.
+  assert (Hops5 : a_ops a5 = [VInt i0]) by reflexivity.
+  assert (Hcb5 : a_cb a5 = cb).
+  { cbn [a5 a4 upd set_ip set_ops a_cb]. destruct A3 as (_ & _ & X3). cbn [a2 upd set_ip set_ops a_cb] in X3. congruence. }
+  assert (Hss5 : a_ss a5 = a_ss a) by (cbn [a5 a4 upd set_ip set_ops a_ss]; rewrite S3; cbn [a2 upd set_ip set_ops a_ss]; exact Hss1).
+  assert (SM5 : smid b s a g b2 s2 a5 g5).
+  { eapply smid_trans; [exact SM1|]. eapply smid_trans; [exact SM2|]. eapply smid_trans; [exact SM3|]. eapply smid_trans; [exact SM4|].
+    apply smid_same; [exact R5|reflexivity|reflexivity|repeat split|reflexivity]. }
+  assert (LK5 : lkeep lr (frames g) (frames g5)).
+  { apply (lkeep_trans lr (frames g) (frames g1) (frames g5)); [exact LK1|].
+    apply (lkeep_trans lr (frames g1) (frames g2) (frames g5)).
+    { rewrite Ef1, Ef2. apply lk_bind2. intros j Hjj E. exact (proj1 (proj2 (Hlkj j Hjj)) (eq_sym E)). }
+    apply (lkeep_trans lr (frames g2) (f3 :: R) (frames g5)); [exact LK3|].
+    rewrite Ef5. apply lk_bind2. intros j Hjj E. exact (proj1 (Hlkj j Hjj) (eq_sym E)). }
+  assert (Hce5 : cell_get g5 ce = Some (VInt hi)) by exact Hce4.
+  cbv zeta.
   rewrite kstmt_SFrom in Hk.
   destruct nm as [x|]; destruct collide; try discriminate.
   3:{ (* ---------------- a hidden counter: L#(lr+1) on the VM, the name `hid` in the reference semantics *)
@@ -2943,80 +3025,50 @@ Proof.
     destruct (stepc_inv _ _ _ _ _ B body Esc Hks) as [-> Est].
     cbn [nd] in *. unfold nd in *. apply items_at_cons in Hdel as [Hdel _]. cbn [item_instr I] in Hdel.
     (* store_fast L#(lr+1): the counter, a cell of the VM *)
-    destruct (store_fast_reg b1 B env s1 a1 g1 k1 idn (inj va) Hi1 Hip1 Hops1 HC1 (lregn_not_uname0 _)) as (f1 & R & g2 & Ef1 & R2 & HC2 & Ef2 & Ec2 & Eo2 & Hn2).
-    set (c'x := N.of_nat (length (cells g1))) in *. set (a2 := upd a1 (S k1) []) in *.
-    assert (SM2 : smid b1 s1 a1 g1 b1 s1 a2 g2) by (eapply smid_bind; [exact R2|exact Ef1|exact Ef2|exact Ec2|repeat split|reflexivity]).
-    (* the upper bound, with the register bound *)
-    pose proof (espec_all eb b1 B c0 lr1 (k0 + length fa) fuel (S k1) a2 g2 env s1 KD ltac:(lia) Ebk Hb) as Heb. rewrite Ecb in Heb. cbn [fst snd] in Heb. fold lb in Heb.
-    specialize (Heb Hinb ltac:(unfold fin, kd, kj, kst, ks, kb, kw, kc, k3 in *; lia) Hcb2 ltac:(unfold fin, kd, kj, kst, ks, kb, kw, kc, k3 in *; lia)
-                    eq_refl ltac:(cbn [a2 upd set_ip set_ops a_cb]; exact Hcb1) eq_refl HC2).
-    fold k3 in Heb.
-    destruct (eval fuel env eb s1) as [vb s2|s2|f s2|]; cbn [eres_ok spost] in Heb |- *; [|exact Logic.I| |exact Logic.I].
-    2:{ eapply fail_post_map; [|exact Heb]. intros (e0 & g' & Hf & Hr). exists e0, g'.
-        split; [eapply smid_fail; [exact SM1|]; eapply smid_fail; [exact SM2|exact Hf]|exact Hr]. }
-    apply eres_val_inv in Heb. destruct Heb as (a3 & g3 & b2 & wb & M3 & Hip3 & Hops3 & HC3 & [Hfob ->]).
-    destruct va as [i0|?|?| |? ? ?]; try exact Logic.I.
-    destruct vb as [hi|?|?| |? ? ?]; try exact Logic.I. cbn [inj] in *.
-    pose proof (smid_of_mid _ _ _ _ _ _ _ _ _ M3) as SM3. pose proof (lk_mid lr _ _ _ _ _ _ _ _ _ M3) as LK3.
-    unfold mid, rest in M3. destruct M3 as (R3 & E3 & T3 & A3 & S3 & K3 & F3 & L3).
-    assert (Hcx2 : cell_get g2 c'x = Some (VInt i0)).
-    { unfold cell_get, c'x. rewrite Ec2, Nnat.Nat2N.id, nth_error_app2, Nat.sub_diag by lia. reflexivity. }
-    assert (Hcx3 : cell_get g3 c'x = Some (VInt i0)) by exact (K3 _ _ Hcx2 Hn2).
-    assert (Hn3 : forall c k, ~ b2 c c'x k).
-    { intros c k Hbc. destruct (proj2 E3 c c'x k Hbc) as [H0|[_ H2]]; [exact (Hn2 c k H0)|]. rewrite Ec2, app_length in H2. unfold c'x in H2. rewrite Nnat.Nat2N.id in H2. cbn [length] in H2. lia. }
-    assert (Hnr : ~ own_reg c0 idn) by (intros (k & _ & _ & E); exact (lregn_not_reg _ _ E)).
-    destruct (frames g3) as [|f3 R3'] eqn:Ef3; [exact (False_ind _ (proj2 (Rfr2_ne _ _ _ _ (cl_fr _ _ _ _ _ _ _ _ _ _ _ _ _ HC3)) Ef3))|].
-    assert (ER : R3' = R) by (rewrite Ef2 in T3; exact T3). subst R3'.
-    assert (Hax3 : assoc idn (vars f3) = Some c'x).
-    { pose proof (proj2 (F3 idn Hnr)) as H. rewrite Ef3, Ef2 in H. cbn [top_vars vars] in H. rewrite H. apply assoc_set_same. }
-    (* store_fast L#(lr+2): the end of the range *)
-    destruct (store_fast_reg b2 B env s2 a3 g3 k3 endr (VInt hi) Hi3 Hip3 Hops3 HC3 (lregn_not_uname0 _)) as (f3' & R' & g4 & Ef3' & R4 & HC4 & Ef4 & Ec4 & Eo4 & Hn4).
-    rewrite Ef3 in Ef3'. inversion Ef3'; subst f3' R'. clear Ef3'.
-    set (ce := N.of_nat (length (cells g3))) in *. set (a4 := upd a3 (S k3) []) in *.
-    set (F2 := {| lab := lab f3; vars := assoc_set endr ce (vars f3) |}) in *.
-    assert (SM4 : smid b2 s2 a3 g3 b2 s2 a4 g4) by (eapply smid_bind; [exact R4|exact Ef3|exact Ef4|exact Ec4|repeat split|reflexivity]).
-    assert (HaxF2 : assoc idn (vars F2) = Some c'x) by (unfold F2; cbn [vars]; rewrite assoc_set_other by exact Hie; exact Hax3).
-    assert (HaeF2 : assoc endr (vars F2) = Some ce) by (unfold F2; cbn [vars]; apply assoc_set_same).
-    assert (HndF2 : keys_nd (vars F2)).
-    { pose proof (cl_nd _ _ _ _ _ _ _ _ _ _ _ _ _ HC4) as Hnd. rewrite Ef4 in Hnd. inversion Hnd; assumption. }
-    assert (Hlt3 : N.to_nat c'x < length (cells g3)) by (apply nth_error_Some; unfold cell_get in Hcx3; congruence).
-    assert (Hcx4 : cell_get g4 c'x = Some (inj (RInt i0))).
-    { unfold cell_get in *. rewrite Ec4, nth_error_app1 by exact Hlt3. exact Hcx3. }
-    assert (Hce4 : cell_get g4 ce = Some (VInt hi)).
-    { unfold cell_get, ce. rewrite Ec4, Nnat.Nat2N.id, nth_error_app2, Nat.sub_diag by lia. reflexivity. }
+    destruct (store_fast_reg b2 B env s2 a5 g5 (S (S k3)) idn (VInt i0) Hi5 Hip5 Hops5 HC5 (lregn_not_uname0 _)) as (f5' & R' & g6 & Ef5' & R6 & HC6 & Ef6 & Ec6 & Eo6 & Hn6).
+    rewrite Ef5 in Ef5'. inversion Ef5'; subst f5' R'. clear Ef5'.
+    set (c'x := N.of_nat (length (cells g5))) in *. set (a6 := upd a5 (S (S (S k3))) []) in *.
+    set (F6 := {| lab := lab F4; vars := assoc_set idn c'x (vars F4) |}) in *.
+    assert (SM6 : smid b2 s2 a5 g5 b2 s2 a6 g6) by (eapply smid_bind; [exact R6|exact Ef5|exact Ef6|exact Ec6|repeat split|reflexivity]).
+    assert (HaxF2 : assoc idn (vars F6) = Some c'x) by (unfold F6; cbn [vars]; apply assoc_set_same).
+    assert (HaeF2 : assoc endr (vars F6) = Some ce) by (unfold F6; cbn [vars]; rewrite assoc_set_other by (intros E; exact (Hie (eq_sym E))); exact HaeF4).
+    assert (HasF2 : assoc startr (vars F6) = Some c's) by (unfold F6; cbn [vars]; rewrite assoc_set_other by (intros E; exact (His (eq_sym E))); exact HasF4).
+    assert (HndF2 : keys_nd (vars F6)).
+    { pose proof (cl_nd _ _ _ _ _ _ _ _ _ _ _ _ _ HC6) as Hnd. rewrite Ef6 in Hnd. inversion Hnd; assumption. }
+    assert (Hlt5 : N.to_nat ce < length (cells g5)) by (apply nth_error_Some; unfold cell_get in Hce5; congruence).
+    assert (Hcx6 : cell_get g6 c'x = Some (inj (RInt i0))).
+    { unfold cell_get, c'x. rewrite Ec6, Nnat.Nat2N.id, nth_error_app2, Nat.sub_diag by lia. reflexivity. }
+    assert (Hce6 : cell_get g6 ce = Some (VInt hi)).
+    { unfold cell_get in *. rewrite Ec6, nth_error_app1 by exact Hlt5. exact Hce5. }
     (* the reference semantics declares the hidden counter now: the two cells are paired *)
-    pose proof (Cl_declare_hid path prog P cb CD base name SF b2 B env s2 g4 (RInt i0) c'x sc0 l' HC4 El Logic.I Hcx4 Hn3) as HC5. cbv zeta in HC5.
+    pose proof (Cl_declare_hid path prog P cb CD base name SF b2 B env s2 g6 (RInt i0) c'x sc0 l' HC6 El Logic.I Hcx6 Hn6) as HC7. cbv zeta in HC7.
     set (cx := N.of_nat (length (store s2))) in *. set (b3 := add_pair b2 cx c'x KD) in *.
     set (lL := assoc_set hid cx sc0 :: l') in *.
-    match type of HC5 with Cl _ _ _ _ _ _ _ _ _ _ ?E ?S _ => set (envH := E) in *; set (sH := S) in * end.
+    match type of HC7 with Cl _ _ _ _ _ _ _ _ _ _ ?E ?S _ => set (envH := E) in *; set (sH := S) in * end.
     assert (Edec : declare env s2 hid (RInt i0) = (envH, sH)) by (unfold declare, alloc; rewrite El; reflexivity).
     change [0%N] with hid. rewrite Edec.
     set (lE := assoc_del hid (assoc_set hid cx sc0) :: l').
-    assert (SM04 : smid b s a g b2 s2 a4 g4).
-    { eapply smid_trans; [exact SM1|]. eapply smid_trans; [exact SM2|]. eapply smid_trans; [exact SM3|exact SM4]. }
-    assert (SMH : smid b s a g b3 sH a4 g4).
-    { unfold smid in SM04 |- *. destruct SM04 as (R0 & [Ele Efr] & T0 & A0 & S0 & K0 & [L0a L0b]).
+    assert (SM06 : smid b s a g b2 s2 a6 g6) by (eapply smid_trans; [exact SM5|exact SM6]).
+    assert (SMH : smid b s a g b3 sH a6 g6).
+    { unfold smid in SM06 |- *. destruct SM06 as (R0 & [Ele Efr] & T0 & A0 & S0 & K0 & [L0a L0b]).
       split; [exact R0|]. split.
       { split; [intros c c' k Hbc; left; exact (Ele _ _ _ Hbc)|].
         intros c c' k [Hbc|(-> & -> & ->)]; [exact (Efr _ _ _ Hbc)|right]. unfold cx, c'x. rewrite !Nnat.Nat2N.id. split; [exact L0a|].
-        unfold smid in SM1. destruct SM1 as (_ & _ & _ & _ & _ & _ & [_ X]). exact X. }
+        unfold smid in SM5. destruct SM5 as (_ & _ & _ & _ & _ & _ & [_ X]). exact X. }
       split; [exact T0|]. split; [exact A0|]. split; [exact S0|]. split; [exact K0|].
       split; [cbn [sH store]; rewrite app_length; lia|exact L0b]. }
-    assert (LKH : lkeep lr (frames g) (frames g4)).
-    { apply (lkeep_trans lr (frames g) (frames g1) (frames g4)); [exact LK1|].
-      apply (lkeep_trans lr (frames g1) (frames g2) (frames g4)).
-      { rewrite Ef1, Ef2. apply lk_bind2. intros j Hjj E. exact (proj2 (Hlkj j Hjj) eq_refl (eq_sym E)). }
-      apply (lkeep_trans lr (frames g2) (f3 :: R) (frames g4)); [exact LK3|].
-      rewrite Ef4. apply lk_bind2. intros j Hjj E. exact (proj1 (Hlkj j Hjj) (eq_sym E)). }
+    assert (LKH : lkeep lr (frames g) (frames g6)).
+    { apply (lkeep_trans lr (frames g) (frames g5) (frames g6)); [exact LK5|].
+      rewrite Ef5, Ef6. apply lk_bind2. intros j Hjj E. exact (proj2 (proj2 (Hlkj j Hjj)) eq_refl (eq_sym E)). }
     assert (Hlook_any : forall sc y, y <> hid -> assoc y (assoc_set hid cx sc) = assoc y sc) by (intros sc y Hy; now rewrite assoc_set_other by exact Hy).
-    apply (spost_seq b B rb lr sl bt ct fin env s a g b3 envH sH a4 g4 _ SMH LKH); [split; [cbn [envH locals tl]; rewrite El; reflexivity|cbn [envH locals]; discriminate]|].
-    eapply (from_loop body Hbody incl step hid idn endr false lr lr1 sl bt ct B B B1 rb kc lbd ls (k0 + length fa + length fb) fin cbody fbd cs fuel
-              ltac:(lia) hi cx c'x ce F2 R lL lE (fun e => undeclare e hid)).
+    apply (spost_seq b B rb lr sl bt ct fin env s a g b3 envH sH a6 g6 _ SMH LKH); [split; [cbn [envH locals tl]; rewrite El; reflexivity|cbn [envH locals]; discriminate]|].
+    eapply (from_loop body Hbody incl step hid idn endr false lr (S lr1) sl bt ct B B B1 rb kc lbd ls (k0 + length fa + length fb) fin cbody fbd cs fuel
+              ltac:(lia) hi cx c'x ce F6 R lL lE (fun e => undeclare e hid)).
     - exact Eb.
     - exact Est.
     - exact Ebc.
     - exact Hinbd.
-    - exact Hlr1.
+    - unfold lr1. cbn [from_lr1]. lia.
     - reflexivity.
     - reflexivity.
     - exact Hc1.
@@ -3038,117 +3090,84 @@ Proof.
     - intros envX EX. apply (bound2_same B env envX Hb). intros y Hy. rewrite EX, El. cbn [lL lookup_scopes]. now rewrite assoc_set_other by exact Hy.
     - intros envX EX. apply (bound2_same B env envX Hb). intros y Hy. rewrite EX, El. cbn [lE lookup_scopes].
       rewrite assoc_del_other by exact Hy. now rewrite assoc_set_other by exact Hy.
-    - intros bB env2 s2' g2' _ _ _ _ LK _. change idn with (lregn (S lr)). rewrite (LK (S lr) ltac:(unfold lr1; cbn [from_lr1]; lia)).
+    - intros bB env2 sX g2' _ _ _ _ LK _. change idn with (lregn (S lr)). rewrite (LK (S lr) ltac:(unfold lr1; cbn [from_lr1]; lia)).
       cbn [find_in_function assoc vars lab special]. change (lregn (S lr)) with idn. now rewrite HaxF2.
     - reflexivity.
     - intros envX EX. unfold undeclare. rewrite EX. reflexivity.
     - intros k E. exact (lregn_not_reg _ _ E).
-    - (* leaving the loop: the two registers and the hidden name go *)
-      intros a5 g5 env5 s5 b5 El5 HC5' Ef5 Hip5 Hops5. change (a_ip a5 = kd) in Hip5.
-      set (vs := assoc_del endr (assoc_del idn (vars F2))).
-      set (i_d := mkI OP_DELETE_NAME_SCOPED [idn; endr]) in *.
-      set (g5t := trc name a5 g5 i_d).
-      exists (set_ip a5 (S kd)), (with_frames g5t ({| lab := lab F2; vars := vs |} :: R)).
-      assert (Hvs : forall y, y <> idn -> y <> endr -> assoc y vs = assoc y (vars F2)) by (intros y H1 H2; unfold vs; now rewrite !assoc_del_other by assumption).
+    - (* leaving the loop: the three registers and the hidden name go *)
+      intros a7 g7 env7 s7 b7 El7 HC7' Ef7 Hip7 Hops7. change (a_ip a7 = kd) in Hip7.
+      set (vs := assoc_del endr (assoc_del startr (assoc_del idn (vars F6)))).
+      set (i_d := mkI OP_DELETE_NAME_SCOPED [idn; startr; endr]) in *.
+      set (g7t := trc name a7 g7 i_d).
+      exists (set_ip a7 (S kd)), (with_frames g7t ({| lab := lab F6; vars := vs |} :: R)).
+      assert (Hvs : forall y, y <> idn -> y <> startr -> y <> endr -> assoc y vs = assoc y (vars F6)) by (intros y H1 H2 H3; unfold vs; now rewrite !assoc_del_other by assumption).
       split.
-      { rewrite <- Hip5. eapply (xstep_next prog name code a5 g5 i_d _ (a_ip a5) a5); [reflexivity|rewrite Hip5; atp Hdel|apply dec_delete2|].
-        exact (exec_delete2 idn endr a5 g5t F2 R c'x ce Ef5 Hie HaxF2 HaeF2). }
-      split; [cbn [set_ip a_ip]; unfold fin; lia|]. split; [exact Hops5|]. split; [repeat split|]. split; [reflexivity|]. split; [reflexivity|].
+      { rewrite <- Hip7. eapply (xstep_next prog name code a7 g7 i_d _ (a_ip a7) a7); [reflexivity|rewrite Hip7; atp Hdel|apply dec_delete3|].
+        exact (exec_delete3 idn startr endr a7 g7t F6 R c'x c's ce Ef7 His Hie Hse HaxF2 HasF2 HaeF2). }
+      split; [cbn [set_ip a_ip]; unfold fin; lia|]. split; [exact Hops7|]. split; [repeat split|]. split; [reflexivity|]. split; [reflexivity|].
       split; [reflexivity|]. split.
-      { intros j Hjj. cbn [with_frames frames find_in_function vars lab]. rewrite Hvs; [reflexivity| |exact (proj1 (Hlkj j Hjj))].
-        exact (proj2 (Hlkj j Hjj) eq_refl). }
+      { intros j Hjj. cbn [with_frames frames find_in_function vars lab]. rewrite Hvs; [reflexivity| |exact (proj1 (proj2 (Hlkj j Hjj)))|exact (proj1 (Hlkj j Hjj))].
+        exact (proj2 (proj2 (Hlkj j Hjj)) eq_refl). }
       split.
-      { apply (Cl_undeclare_hid path prog P cb CD base name SF b5 B env5 s5 g5t (assoc_set hid cx sc0) l' F2 R vs (Cl_trc _ _ _ _ _ _ _ _ HC5') El5 Ef5).
-        - intros y Hy. apply Hvs; intros ->; [exact (lregn_not_uname0 _ Hy)|exact (lregn_not_uname0 _ Hy)].
-        - unfold vs. apply keys_nd_assoc_del. apply keys_nd_assoc_del. exact HndF2. }
-      unfold undeclare. rewrite El5. reflexivity.
+      { apply (Cl_undeclare_hid path prog P cb CD base name SF b7 B env7 s7 g7t (assoc_set hid cx sc0) l' F6 R vs (Cl_trc _ _ _ _ _ _ _ _ HC7') El7 Ef7).
+        - intros y Hy. apply Hvs; intros ->; exact (lregn_not_uname0 _ Hy).
+        - unfold vs. apply keys_nd_assoc_del. apply keys_nd_assoc_del. apply keys_nd_assoc_del. exact HndF2. }
+      unfold undeclare. rewrite El7. reflexivity.
     - reflexivity.
-    - exact HC5.
-    - exact Ef4.
+    - exact HC7.
+    - exact Ef6.
     - reflexivity.
-    - cbn [a4 upd set_ip set_ops a_cb]. destruct A3 as (_ & _ & X3). cbn [a2 upd set_ip set_ops a_cb] in X3. congruence.
-    - cbn [a4 upd set_ip set_ops a_ss lL length]. rewrite S3. cbn [a2 upd set_ip set_ops a_ss]. rewrite Hss1. cbn [length] in Hss. exact Hss.
+    - cbn [a6 upd set_ip set_ops a_cb]. exact Hcb5.
+    - cbn [a6 upd set_ip set_ops a_ss lL length]. rewrite Hss5. cbn [length] in Hss. exact Hss.
     - right. auto.
-    - exact Hce4.
-    - intros c k [Hbc|(_ & E & _)]; [exact (Hn4 c k Hbc)|]. unfold ce in E. apply (f_equal N.to_nat) in E. rewrite Nnat.Nat2N.id in E. lia. }
-  1:{ (* ---------------- the counter is an existing local variable: assigned, kept after the loop *)
+    - exact Hce6.
+    - intros c k [Hbc|(_ & E & _)]; [exact (Hn4 c k Hbc)|]. unfold c'x in E. rewrite E, Nnat.Nat2N.id in Hlt5. lia. }
+  1:{ (* ---------------- the counter is an existing local variable: assigned after both bounds, kept after the loop *)
     match type of Hk with (if ?c then _ else _) = _ => destruct c eqn:Hcnd; [|discriminate] end.
-    rewrite !andb_true_iff in Hcnd. destruct Hcnd as [[[[[_ Hob] Hsx] HxB] HxU] Hks].
-    apply is_KD_eq in HxB. destruct (used_e eb) as [|y0 t0] eqn:EU; [|discriminate]. clear HxU.
+    rewrite !andb_true_iff in Hcnd. destruct Hcnd as [[[[_ _] Hsx] HxB] Hks].
+    apply is_KD_eq in HxB.
     destruct (kblock SF true B CD body) as [[B1 rb]|] eqn:Eb; [|discriminate]. inversion Hk; subst B' rets.
     destruct (stepc_inv _ _ _ _ _ B body Esc Hks) as [-> Est].
     pose proof (src_nameb_ok x Hsx) as Hx.
-    rewrite (ec_pure path eb (ok_dexpr_pure _ _ _ Hob)) in Ecb. inversion Ecb; subst cb_ fb. clear Ecb.
     unfold nd in *.
     (* store x : the existing cell is written *)
     set (i_sx := mkI OP_STORE [x]) in *.
-    set (g1t := trc name a1 g1 i_sx).
-    pose proof (Cl_trc b1 B env s1 g1 name a1 i_sx HC1) as HC1t. fold g1t in HC1t.
-    destruct (cl_B _ _ _ _ _ _ _ _ _ _ _ _ _ HC1t x KD HxB) as (_ & cx & c'x & A1 & A2 & A3).
-    assert (Hst0 : store_var g1t x (inj va) = Some (cell_set g1t c'x (inj va))) by (unfold store_var; now rewrite A2).
-    set (a2 := set_ip (set_ops a1 []) (S (a_ip a1))).
-    set (g2 := cell_set g1t c'x (inj va)).
-    set (s1' := sset s1 cx va).
-    assert (R2 : xrun prog name code a1 g1 a2 g2).
-    { eapply (xstep_next prog name code a1 g1 i_sx _ (a_ip a1) (set_ops a1 [])); [reflexivity|rewrite Hip1; exact Hi1|apply dec_store|].
-      apply (exec_store x a1 g1t (inj va) g2); [exact Hops1|exact Hst0]. }
-    assert (HC2 : ClA b1 B env s1' g2) by (apply (Cl_update path prog P cb CD base name SF b1 B env s1 g1t cx c'x KD va (inj va) HC1t A3); split; [exact Hfoa|reflexivity]).
-    assert (SM2 : smid b1 s1 a1 g1 b1 s1' a2 g2).
-    { unfold smid. split; [exact R2|]. split; [apply bext_refl|]. split; [reflexivity|]. split; [repeat split|]. split; [reflexivity|].
-      split; [change (keep b1 g1t (cell_set g1t c'x (inj va))); eapply keep_cell_set; exact A3|].
-      split; [cbn [s1' sset store]; rewrite set_nth_length; lia|cbn [g2 cell_set cells g1t trc add_trace]; rewrite set_nth_length; lia]. }
-    (* the upper bound mentions no variable: the reference semantics evaluates it before the assignment; same result *)
-    destruct (ok_dexpr_parts B eb Hob) as (Hpb & Hlb & Hub).
-    assert (Hagb : forall y, In y (used_e eb) -> agree env s1 env s1' y) by (rewrite EU; intros y []).
-    destruct (eval_pure_congr eb Hpb fuel env s1 env s1' Hagb) as [Hst_b Eb1].
-    pose proof (dexpr_run b1 B eb c0 fuel (S k1) a2 g2 env s1' Hob Hb ltac:(lia) Hcb2
-                  ltac:(fold lb; unfold fin, kd, kj, kst, ks, kb, kw, kc, k3 in *; lia) ltac:(cbn [a2 set_ip a_ip]; now rewrite Hip1) eq_refl
-                  ltac:(cbn [a2 set_ip set_ops a_cb]; exact Hcb1) HC2) as Heb.
-    rewrite Eb1 in Heb. fold lb in Heb. fold k3 in Heb.
-    destruct (eval fuel env eb s1) as [vb sb|sb|f sb|]; cbn [res_to res_st] in Hst_b, Heb; [|contradiction| |exact Logic.I].
-    2:{ subst sb. destruct Heb as (_ & e0 & g' & Hf & Hr & Ho). cbn [spost]. apply fail_post_intro. exists e0, g'.
-        split; [eapply smid_fail; [exact SM1|]; eapply smid_fail; [exact SM2|exact Hf]|]. split; [now apply err_rel_s_of|].
-        rewrite Ho. reflexivity. }
-    subst sb. destruct Heb as (_ & Hfob & g3 & R3 & HC3 & He3).
-    destruct va as [i0|?|?| |? ? ?]; try exact Logic.I.
-    destruct vb as [hi|?|?| |? ? ?]; try exact Logic.I. cbn [inj] in *.
-    cbv zeta.
-    assert (Eas : assign env s1 x (RInt i0) = (env, s1')).
-    { unfold assign. rewrite El in A1. rewrite El, A1. reflexivity. }
+    set (g5t := trc name a5 g5 i_sx).
+    pose proof (Cl_trc b2 B env s2 g5 name a5 i_sx HC5) as HC5t. fold g5t in HC5t.
+    destruct (cl_B _ _ _ _ _ _ _ _ _ _ _ _ _ HC5t x KD HxB) as (_ & cx & c'x & Q1 & Q2 & Q3).
+    assert (Hst0 : store_var g5t x (VInt i0) = Some (cell_set g5t c'x (VInt i0))) by (unfold store_var; now rewrite Q2).
+    set (a6 := set_ip (set_ops a5 []) (S (a_ip a5))).
+    set (g6 := cell_set g5t c'x (VInt i0)).
+    set (sD := sset s2 cx (RInt i0)).
+    assert (R6 : xrun prog name code a5 g5 a6 g6).
+    { eapply (xstep_next prog name code a5 g5 i_sx _ (a_ip a5) (set_ops a5 [])); [reflexivity|rewrite Hip5; exact Hi5|apply dec_store|].
+      apply (exec_store x a5 g5t (VInt i0) g6); [exact Hops5|exact Hst0]. }
+    assert (HC6 : ClA b2 B env sD g6) by (apply (Cl_update path prog P cb CD base name SF b2 B env s2 g5t cx c'x KD (RInt i0) (VInt i0) HC5t Q3); split; [exact Logic.I|reflexivity]).
+    assert (SM6 : smid b2 s2 a5 g5 b2 sD a6 g6).
+    { unfold smid. split; [exact R6|]. split; [apply bext_refl|]. split; [reflexivity|]. split; [repeat split|]. split; [reflexivity|].
+      split; [change (keep b2 g5t (cell_set g5t c'x (VInt i0))); eapply keep_cell_set; exact Q3|].
+      split; [cbn [sD sset store]; rewrite set_nth_length; lia|cbn [g6 cell_set cells g5t trc add_trace]; rewrite set_nth_length; lia]. }
+    assert (Eas : assign env s2 x (RInt i0) = (env, sD)).
+    { unfold assign. rewrite El in Q1. rewrite El, Q1. reflexivity. }
     rewrite Eas.
-    set (a3 := upd a2 (S k1 + lb) [VInt hi]) in *.
-    assert (SM3 : smid b1 s1' a2 g2 b1 s1' a3 g3).
-    { unfold smid. split; [exact R3|]. split; [apply bext_refl|]. split; [exact (ext_tail _ _ _ _ _ He3)|]. split; [repeat split|]. split; [reflexivity|].
-      destruct (ext_cells _ _ _ _ _ He3) as [extra Ec]. split; [eapply keep_cells_app; exact Ec|]. split; [lia|rewrite Ec, app_length; lia]. }
-    assert (LK3 : lkeep lr (frames g2) (frames g3)).
-    { intros j _. apply (ext_find _ _ _ _ _ He3). intros (k & _ & _ & E). exact (lregn_not_reg _ _ E). }
-    (* store_fast L#(lr+1): the end of the range *)
-    destruct (store_fast_reg b1 B env s1' a3 g3 k3 endr (VInt hi) Hi3 eq_refl eq_refl HC3 (lregn_not_uname0 _)) as (f3 & R & g4 & Ef3 & R4 & HC4 & Ef4 & Ec4 & Eo4 & Hn4).
-    set (ce := N.of_nat (length (cells g3))) in *. set (a4 := upd a3 (S k3) []) in *.
-    set (F2 := {| lab := lab f3; vars := assoc_set endr ce (vars f3) |}) in *.
-    assert (SM4 : smid b1 s1' a3 g3 b1 s1' a4 g4) by (eapply smid_bind; [exact R4|exact Ef3|exact Ef4|exact Ec4|repeat split|reflexivity]).
-    assert (HaeF2 : assoc endr (vars F2) = Some ce) by (unfold F2; cbn [vars]; apply assoc_set_same).
-    assert (Hce4 : cell_get g4 ce = Some (VInt hi)).
-    { unfold cell_get, ce. rewrite Ec4, Nnat.Nat2N.id, nth_error_app2, Nat.sub_diag by lia. reflexivity. }
-    assert (Hfx4 : find_in_function x (F2 :: R) = Some c'x).
-    { destruct (cl_B _ _ _ _ _ _ _ _ _ _ _ _ _ HC4 x KD HxB) as (_ & c2 & c2' & Y1 & Y2 & Y3). rewrite Ef4 in Y2. rewrite A1 in Y1. inversion Y1; subst c2.
-      destruct (proj2 (cl_heap _ _ _ _ _ _ _ _ _ _ _ _ _ HC4) _ _ _ _ _ _ Y3 A3) as [Hiff _]. assert (c2' = c'x) by (apply Hiff; reflexivity). congruence. }
+    assert (Ef6 : frames g6 = F4 :: R) by exact Ef5.
+    assert (Hcne : ce <> c'x) by (intros E; apply (Hn4 cx KD); rewrite E; exact Q3).
+    assert (Hce6 : cell_get g6 ce = Some (VInt hi)).
+    { unfold cell_get in *. cbn [g6 cell_set cells]. rewrite nth_error_set_nth_other; [exact Hce5|]. intros E. apply N2Nat.inj in E. exact (Hcne (eq_sym E)). }
+    assert (Hfx4 : find_in_function x (F4 :: R) = Some c'x) by (rewrite <- Ef5; exact Q2).
     set (lL := sc0 :: l') in *.
-    assert (A1L : lookup_scopes x lL = Some cx) by (rewrite <- El; exact A1).
-    assert (SMH : smid b s a g b1 s1' a4 g4).
-    { eapply smid_trans; [exact SM1|]. eapply smid_trans; [exact SM2|]. eapply smid_trans; [exact SM3|exact SM4]. }
-    assert (LKH : lkeep lr (frames g) (frames g4)).
-    { apply (lkeep_trans lr (frames g) (frames g1) (frames g4)); [exact LK1|].
-      apply (lkeep_trans lr (frames g1) (frames g3) (frames g4)); [exact LK3|].
-      rewrite Ef3, Ef4. apply lk_bind2. intros j Hjj E. exact (proj1 (Hlkj j Hjj) (eq_sym E)). }
-    apply (spost_seq b B rb lr sl bt ct fin env s a g b1 env s1' a4 g4 _ SMH LKH); [apply same_tl_refl; rewrite El; discriminate|].
-    eapply (from_loop body Hbody incl step x x endr true lr lr sl bt ct B B B1 rb kc lbd ls (k0 + length fa + 0) fin cbody fbd cs fuel
-              ltac:(lia) hi cx c'x ce F2 R lL lL (fun e => e)).
+    assert (Q1L : lookup_scopes x lL = Some cx) by (rewrite <- El; exact Q1).
+    assert (SMH : smid b s a g b2 sD a6 g6) by (eapply smid_trans; [exact SM5|exact SM6]).
+    assert (LKH : lkeep lr (frames g) (frames g6)) by (rewrite Ef6, <- Ef5; exact LK5).
+    apply (spost_seq b B rb lr sl bt ct fin env s a g b2 env sD a6 g6 _ SMH LKH); [apply same_tl_refl; rewrite El; discriminate|].
+    eapply (from_loop body Hbody incl step x x endr true lr (S lr1) sl bt ct B B B1 rb kc lbd ls (k0 + length fa + length fb) fin cbody fbd cs fuel
+              ltac:(lia) hi cx c'x ce F4 R lL lL (fun e => e)).
     - exact Eb.
     - exact Est.
     - exact Ebc.
     - exact Hinbd.
-    - lia.
+    - unfold lr1. cbn [from_lr1]. lia.
     - reflexivity.
     - reflexivity.
     - exact Hc1.
@@ -3159,42 +3178,42 @@ Proof.
     - exact Hcs'.
     - exact Hst'.
     - exact Hj'.
-    - eapply lrok_mono; [exact Hlrk|]. unfold fin, kd, kj, kst, ks, kb, kw, kc, k3, k1 in *. lia.
+    - eapply lrok_mono; [exact Hlrk|]. unfold lr1; cbn [from_lr1]. unfold fin, kd, kj, kst, ks, kb, kw, kc, k3, k1 in *. lia.
     - unfold fin. lia.
     - exact Hend.
-    - exact A1L.
+    - exact Q1L.
     - exact Hfx4.
-    - exact HaeF2.
+    - exact HaeF4.
     - discriminate.
     - split; [discriminate|reflexivity].
     - intros envX EX. eapply bound2_eq; [exact Hb|]. rewrite EX, El. reflexivity.
     - intros envX EX. eapply bound2_eq; [exact Hb|]. rewrite EX, El. reflexivity.
-    - intros bB env2 s2' g2' HCB Htl2 Hne2 _ _ HbxB.
+    - intros bB env2 sX g2' HCB Htl2 Hne2 _ _ HbxB.
       destruct (cl_B _ _ _ _ _ _ _ _ _ _ _ _ _ HCB x KD HxB) as (_ & c2 & c2' & Y1 & Y2 & Y3).
       assert (Hlx2 : lookup_scopes x (locals env2) = Some cx).
       { destruct (locals env2) as [|sc2 l2] eqn:E2l; [congruence|]. cbn [tl] in Htl2. subst l2.
-        apply NS_lookup_tl; [rewrite <- E2l; exact (cl_ns _ _ _ _ _ _ _ _ _ _ _ _ _ HCB)|exact (proj2 (proj2 Hx))|exact A1L]. }
+        apply NS_lookup_tl; [rewrite <- E2l; exact (cl_ns _ _ _ _ _ _ _ _ _ _ _ _ _ HCB)|exact (proj2 (proj2 Hx))|exact Q1L]. }
       rewrite Hlx2 in Y1. inversion Y1; subst c2.
       destruct (proj2 (cl_heap _ _ _ _ _ _ _ _ _ _ _ _ _ HCB) _ _ _ _ _ _ Y3 HbxB) as [Hiff _]. assert (c2' = c'x) by (apply Hiff; reflexivity). congruence.
     - reflexivity.
     - intros envX EX. exact EX.
     - intros k E. exact (src_name_not_reg x k (proj1 Hx) E).
     - (* leaving the loop: nothing to delete *)
-      intros a5 g5 env5 s5 b5 El5 HC5' Ef5 Hip5 Hops5. change (a_ip a5 = kd) in Hip5.
-      exists a5, g5. split; [apply xrun_refl|]. split; [rewrite Hip5; unfold fin; lia|]. split; [exact Hops5|]. split; [repeat split|]. split; [reflexivity|].
-      split; [reflexivity|]. split; [now rewrite Ef5|]. split; [rewrite Ef5; apply lkeep_refl|]. split; [exact HC5'|exact El5].
+      intros a7 g7 env7 s7 b7 El7 HC7' Ef7 Hip7 Hops7. change (a_ip a7 = kd) in Hip7.
+      exists a7, g7. split; [apply xrun_refl|]. split; [rewrite Hip7; unfold fin; lia|]. split; [exact Hops7|]. split; [repeat split|]. split; [reflexivity|].
+      split; [reflexivity|]. split; [now rewrite Ef7|]. split; [rewrite Ef7; apply lkeep_refl|]. split; [exact HC7'|exact El7].
     - exact El.
-    - exact HC4.
-    - exact Ef4.
+    - exact HC6.
+    - exact Ef6.
     - reflexivity.
-    - cbn [a4 a3 a2 upd set_ip set_ops a_cb]. exact Hcb1.
-    - cbn [a4 a3 a2 upd set_ip set_ops a_ss lL length]. rewrite Hss1. cbn [length] in Hss. exact Hss.
-    - exact A3.
-    - exact Hce4.
+    - cbn [a6 set_ip set_ops a_cb]. exact Hcb5.
+    - cbn [a6 set_ip set_ops a_ss lL length]. rewrite Hss5. cbn [length] in Hss. exact Hss.
+    - exact Q3.
+    - exact Hce6.
     - exact Hn4. }
   (* ---------------- a fresh counter: a variable of the enclosing block for the duration of the loop *)
   match type of Hk with (if ?c then _ else _) = _ => destruct c eqn:Hcnd; [|discriminate] end.
-  rewrite !andb_true_iff in Hcnd. destruct Hcnd as [[[[[_ _] Hsx] HxB] HxU] Hks].
+  rewrite !andb_true_iff in Hcnd. destruct Hcnd as [[[[_ _] Hsx] HxB] Hks].
   apply negb_true_iff in HxB.
   destruct (kblock SF true ((x, KD) :: B) CD body) as [[B1 rb]|] eqn:Eb; [|discriminate]. inversion Hk; subst B' rets.
   destruct (stepc_inv _ _ _ _ _ ((x, KD) :: B) body Esc Hks) as [-> Est].
@@ -3203,253 +3222,122 @@ Proof.
   assert (HxBn : assoc x B = None).
   { destruct (assoc x B) as [k|] eqn:E; [|reflexivity]. exfalso. apply HxnB. eapply assoc_in_keys; exact E. }
   unfold nd in *. apply items_at_cons in Hdel as [Hdel _]. cbn [item_instr I] in Hdel.
-  (* store_fast x: the VM binds the counter now *)
+  (* store_fast x: the counter, on both sides, after both bounds *)
   set (i_sx := mkI OP_STORE_FAST [x]) in *.
-  set (g1t := trc name a1 g1 i_sx).
-  pose proof (Cl_trc b1 B env s1 g1 name a1 i_sx HC1) as HC1t. fold g1t in HC1t.
+  set (g5t := trc name a5 g5 i_sx).
+  pose proof (Cl_trc b2 B env s2 g5 name a5 i_sx HC5) as HC5t. fold g5t in HC5t.
   assert (Hn : lookup_scopes x (sc0 :: l') = None).
   { destruct (lookup_scopes x (sc0 :: l')) eqn:E; [|reflexivity]. exfalso. apply HxnB. apply (bound2_in _ _ _ Hb (proj2 (proj2 Hx))). rewrite El. congruence. }
-  destruct (frames g1t) as [|f1 R] eqn:Ef1; [exact (False_ind _ (proj2 (Rfr2_ne _ _ _ _ (cl_fr _ _ _ _ _ _ _ _ _ _ _ _ _ HC1t)) Ef1))|].
-  set (c'x := N.of_nat (length (cells g1t))) in *.
+  assert (Ef5t : frames g5t = F4 :: R) by exact Ef5.
+  destruct (Cl_declare path prog P cb CD base name SF b2 B env s2 g5t x KD (RInt i0) (VInt i0) sc0 l' F4 R HC5t Hx (conj Logic.I eq_refl) El Ef5t
+              ltac:(rewrite El; exact Hn) HxBn (trace g5t)) as [HC6 He6]. cbv zeta in HC6, He6.
+  set (cx := N.of_nat (length (store s2))) in *. set (c'x := N.of_nat (length (cells g5t))) in *.
+  set (b3 := add_pair b2 cx c'x KD) in *.
+  match type of HC6 with Cl _ _ _ _ _ _ _ _ _ _ ?E ?S ?G => set (env1 := E) in *; set (sD := S) in *; set (g6 := G) in * end.
   set (B2 := (x, KD) :: B) in *.
-  set (a2 := set_ip (set_ops a1 []) (S (a_ip a1))).
-  assert (Hip2 : a_ip a2 = S k1) by (cbn [a2 set_ip a_ip]; now rewrite Hip1).
-  set (g2 := {| cells := cells g1t ++ [inj va]; frames := {| lab := lab f1; vars := assoc_set x c'x (vars f1) |} :: R; out := out g1t; trace := trace g1t |}).
-  assert (R2 : xrun prog name code a1 g1 a2 g2).
-  { eapply (xstep_next prog name code a1 g1 i_sx _ (a_ip a1) (set_ops a1 [])); [reflexivity|rewrite Hip1; exact Hi1|apply dec_store_fast|].
-    apply (exec_store_fast x a1 g1t (inj va) g2); [exact Hops1|]. unfold bind_local. rewrite Ef1. reflexivity. }
+  set (a6 := set_ip (set_ops a5 []) (S (a_ip a5))).
+  assert (R6 : xrun prog name code a5 g5 a6 g6).
+  { eapply (xstep_next prog name code a5 g5 i_sx _ (a_ip a5) (set_ops a5 [])); [reflexivity|rewrite Hip5; exact Hi5|apply dec_store_fast|].
+    apply (exec_store_fast x a5 g5t (VInt i0) g6); [exact Hops5|]. unfold bind_local. rewrite Ef5t. reflexivity. }
+  assert (Hb2 : bound2 B2 env1) by (eapply (bound2_declare B env x KD _ sc0 l' env1 Hb El); [reflexivity|exact Hx]).
   assert (Hsc0 : assoc x sc0 = None /\ lookup_scopes x l' = None).
   { cbn [lookup_scopes] in Hn. destruct (assoc x sc0); [discriminate|]. auto. }
-  assert (Hdel0 : forall cx, assoc_del x (assoc_set x cx sc0) = sc0) by (intros cx; apply assoc_del_set_absent; exact (proj1 Hsc0)).
-  assert (SM12 : smid b1 s1 a1 g1 b1 s1 a2 g2).
-  { eapply smid_bind; [exact R2|change (frames g1) with (frames g1t); exact Ef1|reflexivity|reflexivity|repeat split|reflexivity]. }
-  assert (LK12 : lkeep lr (frames g1) (frames g2)).
-  { change (frames g1) with (frames g1t). rewrite Ef1. cbn [g2 frames]. apply lk_bind. intros j. apply uname0_not_lregn. exact Hx. }
-  (* ---------------- what follows the upper bound: the counter is a variable on both sides, its cells are paired *)
-  assert (Hcont : forall b2 sb a3 g3 hi,
-            let cx := N.of_nat (length (store sb)) in
-            let env1 := {| locals := assoc_set x cx sc0 :: l'; captured := captured env; cur := cur env |} in
-            let s1' := {| store := store sb ++ [va]; rout := rout sb |} in
-            ClA b2 B2 env1 s1' g3 -> smid b s a g b2 s1' a3 g3 -> lkeep lr (frames g) (frames g3) ->
-            a_ip a3 = k3 -> a_ops a3 = [VInt hi] -> a_cb a3 = cb -> a_ss a3 = a_ss a ->
-            tl (frames g3) = R -> assoc x (top_vars (frames g3)) = Some c'x -> b2 cx c'x KD ->
-            spost b B rb lr sl bt ct fin env s a g (from_iter fuel incl hi step x false body fuel env1 s1')).
-  { intros b2 sb a3 g3 hi cx env1 s1' HC3 SM3 LK3 Hip3 Hops3 Hcb3 Hss3 Htl3 Htop3 Hbx.
-    assert (Hb2 : bound2 B2 env1) by (eapply (bound2_declare B env x KD _ sc0 l' env1 Hb El); [reflexivity|exact Hx]).
-    (* store_fast L#(lr+1) : the end of the range *)
-    destruct (store_fast_reg b2 B2 env1 s1' a3 g3 k3 endr (VInt hi) Hi3 Hip3 Hops3 HC3 (lregn_not_uname0 _)) as (f3 & R' & g4 & Ef3 & R4 & HC4 & Ef4 & Ec4 & Eo4 & Hn4).
-    assert (ER : R' = R) by (rewrite Ef3 in Htl3; exact Htl3).
-    subst R'.
-    set (ce := N.of_nat (length (cells g3))) in *. set (a4 := upd a3 (S k3) []) in *.
-    set (F2 := {| lab := lab f3; vars := assoc_set endr ce (vars f3) |}) in *.
-    assert (SM4 : smid b2 s1' a3 g3 b2 s1' a4 g4) by (eapply smid_bind; [exact R4|exact Ef3|exact Ef4|exact Ec4|repeat split|reflexivity]).
-    set (lL := assoc_set x cx sc0 :: l') in *.
-    assert (Hax3 : assoc x (vars f3) = Some c'x) by (rewrite Ef3 in Htop3; exact Htop3).
-    assert (HaxF2 : assoc x (vars F2) = Some c'x) by (unfold F2; cbn [vars]; rewrite assoc_set_other by exact Hie; exact Hax3).
-    assert (HaeF2 : assoc endr (vars F2) = Some ce) by (unfold F2; cbn [vars]; apply assoc_set_same).
-    assert (HndF2 : keys_nd (vars F2)).
-    { pose proof (cl_nd _ _ _ _ _ _ _ _ _ _ _ _ _ HC4) as Hnd. rewrite Ef4 in Hnd. inversion Hnd; assumption. }
-    assert (Hce4 : cell_get g4 ce = Some (VInt hi)).
-    { unfold cell_get, ce. rewrite Ec4, Nnat.Nat2N.id, nth_error_app2, Nat.sub_diag by lia. reflexivity. }
-    assert (SMH : smid b s a g b2 s1' a4 g4) by (eapply smid_trans; [exact SM3|exact SM4]).
-    assert (LKH : lkeep lr (frames g) (frames g4)).
-    { apply (lkeep_trans lr (frames g) (frames g3) (frames g4)); [exact LK3|].
-      rewrite Ef3, Ef4. apply lk_bind2. intros j Hjj E. exact (proj1 (Hlkj j Hjj) (eq_sym E)). }
-    apply (spost_seq b B rb lr sl bt ct fin env s a g b2 env1 s1' a4 g4 _ SMH LKH);
-      [split; [cbn [env1 locals tl]; rewrite El; reflexivity|cbn [env1 locals]; discriminate]|].
-    eapply (from_loop body Hbody incl step x x endr false lr lr sl bt ct B B2 B1 rb kc lbd ls (k0 + length fa + length fb) fin cbody fbd cs fuel
-              ltac:(lia) hi cx c'x ce F2 R lL (sc0 :: l') (fun e => undeclare e x)).
-    - exact Eb.
-    - exact Est.
-    - exact Ebc.
-    - exact Hinbd.
-    - lia.
-    - reflexivity.
-    - reflexivity.
-    - exact Hc1.
-    - exact Hc2'.
-    - exact Hc3'.
-    - exact Hw'.
-    - exact Hib'.
-    - exact Hcs'.
-    - exact Hst'.
-    - exact Hj'.
-    - eapply lrok_mono; [exact Hlrk|]. unfold fin, kd, kj, kst, ks, kb, kw, kc, k3, k1 in *. lia.
-    - unfold fin. lia.
-    - exact Hend.
-    - cbn [lL lookup_scopes]. now rewrite assoc_set_same.
-    - cbn [find_in_function]. now rewrite HaxF2.
-    - exact HaeF2.
-    - discriminate.
-    - split; [discriminate|reflexivity].
-    - intros envX EX. eapply bound2_eq; [exact Hb2|]. rewrite EX. reflexivity.
-    - intros envX EX. eapply bound2_eq; [exact Hb|]. rewrite EX, El. reflexivity.
-    - intros bB env2 s2' g2' HCB Htl2 Hne2 _ _ HbxB.
-      destruct (cl_B _ _ _ _ _ _ _ _ _ _ _ _ _ HCB x KD ltac:(cbn [B2 assoc]; now rewrite str_eqb_refl)) as (_ & c2 & c2' & Y1 & Y2 & Y3).
-      assert (Hlx2 : lookup_scopes x (locals env2) = Some cx).
-      { destruct (locals env2) as [|sc2 l2] eqn:E2l; [congruence|]. cbn [tl] in Htl2. subst l2.
-        apply NS_lookup_tl; [rewrite <- E2l; exact (cl_ns _ _ _ _ _ _ _ _ _ _ _ _ _ HCB)|exact (proj2 (proj2 Hx))|].
-        cbn [lL lookup_scopes]. now rewrite assoc_set_same. }
-      rewrite Hlx2 in Y1. inversion Y1; subst c2.
-      destruct (proj2 (cl_heap _ _ _ _ _ _ _ _ _ _ _ _ _ HCB) _ _ _ _ _ _ Y3 HbxB) as [Hiff _]. assert (c2' = c'x) by (apply Hiff; reflexivity). congruence.
-    - reflexivity.
-    - intros envX EX. unfold undeclare. rewrite EX. cbn [locals lL]. now rewrite (Hdel0 cx).
-    - intros k E. exact (src_name_not_reg x k (proj1 Hx) E).
-    - (* leaving the loop: delete the counter and the end register *)
-      intros a5 g5 env5 s5 b5 El5 HC5' Ef5 Hip5 Hops5. change (a_ip a5 = kd) in Hip5.
-      set (vs := assoc_del endr (assoc_del x (vars F2))).
-      set (i_d := mkI OP_DELETE_NAME_SCOPED [x; endr]) in *.
-      set (g5t := trc name a5 g5 i_d).
-      exists (set_ip a5 (S kd)), (with_frames g5t ({| lab := lab F2; vars := vs |} :: R)).
-      assert (Hvs : forall y, y <> x -> y <> endr -> assoc y vs = assoc y (vars F2)) by (intros y H1 H2; unfold vs; now rewrite !assoc_del_other by assumption).
-      split.
-      { rewrite <- Hip5. eapply (xstep_next prog name code a5 g5 i_d _ (a_ip a5) a5); [reflexivity|rewrite Hip5; atp Hdel|apply dec_delete2|].
-        exact (exec_delete2 x endr a5 g5t F2 R c'x ce Ef5 Hie HaxF2 HaeF2). }
-      split; [cbn [set_ip a_ip]; unfold fin; lia|]. split; [exact Hops5|]. split; [repeat split|]. split; [reflexivity|]. split; [reflexivity|].
-      split; [reflexivity|]. split.
-      { intros j Hjj. cbn [with_frames frames find_in_function vars lab]. rewrite Hvs; [reflexivity| |exact (proj1 (Hlkj j Hjj))].
-        intros E. exact (uname0_not_lregn x j Hx (eq_sym E)). }
-      split.
-      { apply (Cl_undeclare path prog P cb CD base name SF b5 B env5 s5 g5t x KD (assoc_set x cx sc0) l' F2 R vs (Cl_trc _ _ _ _ _ _ _ _ HC5') El5 Ef5 Hx HxBn).
-        + intros y Hy Hne0. apply Hvs; [exact Hne0|]. intros ->. exact (lregn_not_uname0 _ Hy).
-        + unfold vs. rewrite assoc_del_other by exact Hie. now apply assoc_del_nd_none.
-        + rewrite (Hdel0 cx). exact (proj1 Hsc0).
-        + exact (proj2 Hsc0).
-        + unfold vs. apply keys_nd_assoc_del. apply keys_nd_assoc_del. exact HndF2. }
-      unfold undeclare. rewrite El5. cbn [locals lL]. now rewrite (Hdel0 cx).
-    - reflexivity.
-    - exact HC4.
-    - exact Ef4.
-    - reflexivity.
-    - cbn [a4 upd set_ip set_ops a_cb]. exact Hcb3.
-    - cbn [a4 upd set_ip set_ops a_ss lL length]. rewrite Hss3. cbn [length] in Hss. exact Hss.
-    - exact Hbx.
-    - exact Hce4.
-    - exact Hn4.
- }
-  assert (Hcases : ok_dexpr B CD eb && negb (mem_str x (used_e eb)) = true \/ negb (mem_str x (map fst CD)) || nm x eb = true).
-  { destruct (orb_prop _ _ HxU) as [H1|H2]; [destruct (orb_prop _ _ H1) as [H3|H4]; [now left|right; now rewrite H4]|right; rewrite H2; apply orb_true_r]. }
-  destruct Hcases as [Hpure|HxC].
-  - (* ---- the upper bound is call-free and does not mention x: the reference semantics may declare the counter first *)
-    apply andb_true_iff in Hpure as [Hob HxU0]. apply negb_true_iff in HxU0.
-    assert (HxnU : ~ In x (used_e eb)) by (intros Hin; apply In_mem_str in Hin; congruence).
-    rewrite (ec_pure path eb (ok_dexpr_pure _ _ _ Hob)) in Ecb. inversion Ecb; subst cb_ fb. clear Ecb.
-    destruct (Cl_declare path prog P cb CD base name SF b1 B env s1 g1t x KD va (inj va) sc0 l' f1 R HC1t Hx (conj Hfoa eq_refl) El Ef1
-                ltac:(rewrite El; exact Hn) HxBn (trace g1t)) as [HC2 He2]. cbv zeta in HC2, He2. fold c'x g2 in HC2.
-    set (cx := N.of_nat (length (store s1))) in *.
-    set (b2 := add_pair b1 cx c'x KD) in *.
-    match type of HC2 with Cl _ _ _ _ _ _ _ _ _ _ ?E ?S _ => set (env1 := E) in *; set (s1' := S) in * end.
-    assert (Hb2 : bound2 B2 env1) by (eapply (bound2_declare B env x KD _ sc0 l' env1 Hb El); [reflexivity|exact Hx]).
-    destruct (ok_dexpr_parts B eb Hob) as (Hpb & Hlb & Hub).
-    assert (Hagb : forall y, In y (used_e eb) -> agree env s1 env1 s1' y).
-    { intros y Hy. destruct (Hub y Hy) as [_ Hky].
-      destruct (var_cell b1 B env s1 g1 y KD HC1 Hb Hky) as (_ & c & c' & v & w & A1 & _ & _ & _ & A3 & _).
-      exists c, c, v. split; [exact A1|]. split; [exact A3|]. split.
-      - cbn [env1 locals captured]. rewrite <- A1, El. cbn [app lookup_scopes]. rewrite assoc_set_other; [reflexivity|]. intros ->. exact (HxnU Hy).
-      - unfold sget in *. cbn [s1' store]. rewrite nth_error_app1; [exact A3|apply nth_error_Some; congruence]. }
-    destruct (eval_pure_congr eb Hpb fuel env s1 env1 s1' Hagb) as [Hst_b Eb1].
-    pose proof (dexpr_run b2 B2 eb c0 fuel (S k1) a2 g2 env1 s1' (ok_dexpr_weaken B x eb Hob HxnU) Hb2
-                  ltac:(lia) Hcb2 ltac:(fold lb; unfold fin, kd, kj, kst, ks, kb, kw, kc, k3 in *; lia) Hip2 eq_refl
-                  ltac:(cbn [a2 set_ip set_ops a_cb]; exact Hcb1) HC2) as Heb.
-    rewrite Eb1 in Heb. fold lb in Heb. fold k3 in Heb.
-    assert (SM2 : smid b s a g b2 s1' a2 g2).
-    { eapply smid_trans; [exact SM1|]. unfold smid. split; [exact R2|]. split; [exact He2|].
-      split; [cbn [g2 frames tl]; change (frames g1) with (frames g1t); now rewrite Ef1|]. split; [repeat split|]. split; [reflexivity|].
-      split; [apply (keep_cells_app _ _ _ [inj va]); reflexivity|].
-      split; [cbn [s1' store]; rewrite app_length; lia|cbn [g2 cells g1t trc add_trace]; rewrite app_length; lia]. }
-    destruct (eval fuel env eb s1) as [vb sb|sb|f sb|]; cbn [res_to res_st] in Hst_b, Heb; [|contradiction| |exact Logic.I].
-    2:{ subst sb. destruct Heb as (_ & e0 & g' & Hf & Hr & Ho). cbn [spost]. apply fail_post_intro. exists e0, g'.
-        split; [eapply smid_fail; [exact SM2|exact Hf]|]. split; [now apply err_rel_s_of|exact Ho]. }
-    subst sb. destruct Heb as (_ & Hfob & g3 & R3 & HC3 & He3).
-    destruct va as [i0|?|?| |? ? ?]; try exact Logic.I.
-    destruct vb as [hi|?|?| |? ? ?]; try exact Logic.I. cbn [inj] in *.
-    cbv zeta.
-    assert (Edec : declare env s1 x (RInt i0) = (env1, s1')) by (unfold declare, alloc; rewrite El; reflexivity).
-    rewrite Edec.
-    set (a3 := upd a2 (S k1 + lb) [VInt hi]) in *.
-    assert (SM3 : smid b2 s1' a2 g2 b2 s1' a3 g3).
-    { unfold smid. split; [exact R3|]. split; [apply bext_refl|]. split; [exact (ext_tail _ _ _ _ _ He3)|]. split; [repeat split|]. split; [reflexivity|].
-      destruct (ext_cells _ _ _ _ _ He3) as [extra Ec]. split; [eapply keep_cells_app; exact Ec|]. split; [lia|rewrite Ec, app_length; lia]. }
-    assert (LK3 : lkeep lr (frames g2) (frames g3)).
-    { intros j _. apply (ext_find _ _ _ _ _ He3). intros (k & _ & _ & E). exact (lregn_not_reg _ _ E). }
-    apply (Hcont b2 s1 a3 g3 hi HC3).
-    + eapply smid_trans; [exact SM2|exact SM3].
-    + apply (lkeep_trans lr (frames g) (frames g1) (frames g3)); [exact LK1|]. apply (lkeep_trans lr (frames g1) (frames g2) (frames g3)); [exact LK12|exact LK3].
-    + reflexivity.
-    + reflexivity.
-    + cbn [a3 a2 upd set_ip set_ops a_cb]. exact Hcb1.
-    + cbn [a3 a2 upd set_ip set_ops a_ss]. exact Hss1.
-    + rewrite (ext_tail _ _ _ _ _ He3). reflexivity.
-    + rewrite (ext_top _ _ _ _ _ He3 x ltac:(apply own_reg_not_src; exact (proj1 Hx))). cbn [top_vars frames g2 vars]. apply assoc_set_same.
-    + right. auto.
-  - (* ---- the upper bound may contain calls: it runs while the VM alone binds x (a name no captured variable has); the reference
-          semantics declares the counter afterwards, and the two cells are paired then *)
-    set (CD' := remove_key x CD).
-    assert (HxCD : assoc x CD' = None) by apply assoc_remove_key_same.
-    assert (Ebk' : kexpr SF B CD' eb = Some KD).
-    { destruct (orb_prop _ _ HxC) as [HxC1|HxC2].
-      - apply negb_true_iff in HxC1. unfold CD'. rewrite remove_key_id; [exact Ebk|]. intros Hi. apply In_mem_str in Hi. congruence.
-      - unfold CD'. rewrite kexpr_remove_key; [exact Ebk|exact HxC2]. }
-    assert (HC1t' : Cl path prog P cb CD' base name SF b1 B env s1 g1t).
-    { apply (Cl_cd path prog P cb CD CD' base name SF b1 B env s1 g1t HC1t). intros y k E.
-      exact (cl_cap _ _ _ _ _ _ _ _ _ _ _ _ _ HC1t y k (assoc_remove_key_sub _ _ _ _ E)). }
-    pose proof (Cl_bind_ghost path prog (fun y => y <> x) P cb CD' base name SF b1 B env s1 g1t x (inj va) f1 R HC1t'
-                  (fun y Hy => conj (HPall y) Hy) Ef1 HxBn ltac:(rewrite El; exact Hn) (trace g1t)) as HCg2. cbv zeta in HCg2. fold c'x g2 in HCg2.
-    assert (Hcx2 : cell_get g2 c'x = Some (inj va)).
-    { unfold cell_get, c'x. cbn [g2 cells]. rewrite Nnat.Nat2N.id, nth_error_app2, Nat.sub_diag by lia. reflexivity. }
-    assert (Hn2 : forall c k, ~ b1 c c'x k).
-    { intros c k Hbc. destruct (heap_valid path prog _ _ _ _ _ _ (cl_heap _ _ _ _ _ _ _ _ _ _ _ _ _ HC1t) Hbc) as [_ Hc']. unfold c'x in Hc'. rewrite Nnat.Nat2N.id in Hc'. lia. }
-    pose proof (Hghost CD' x eb HxCD Hx b1 B c0 lr1 (k0 + length fa) fuel (S k1) a2 g2 env s1 ltac:(lia) Ebk' Hb) as Heb. rewrite Ecb in Heb. cbn [fst snd] in Heb. fold lb in Heb.
-    specialize (Heb Hinb ltac:(unfold fin, kd, kj, kst, ks, kb, kw, kc, k3 in *; lia) Hcb2 ltac:(unfold fin, kd, kj, kst, ks, kb, kw, kc, k3 in *; lia)
-                    Hip2 ltac:(cbn [a2 set_ip set_ops a_cb]; exact Hcb1) eq_refl HCg2).
-    fold k3 in Heb.
-    destruct (eval fuel env eb s1) as [vb sb|sb|f sb|]; cbn [spost] in Heb |- *; [|contradiction| |exact Logic.I].
-    2:{ eapply fail_post_map; [|exact Heb]. intros (e0 & g' & Hf & Hr). exists e0, g'.
-        split; [eapply smid_fail; [exact SM1|]; eapply smid_fail; [exact SM12|exact Hf]|exact Hr]. }
-    destruct Heb as (a3 & g3 & b3 & wb & R3 & Hip3 & Hops3 & E3 & HCg3 & [Hfob ->] & Rest3).
-    pose proof (smid_of_mid b1 c0 s1 a2 g2 b3 sb a3 g3 (conj R3 (conj E3 Rest3))) as SM3.
-    pose proof (lk_mid lr b1 c0 s1 a2 g2 b3 sb a3 g3 (conj R3 (conj E3 Rest3))) as LK3.
-    unfold rest in Rest3. destruct Rest3 as (T3 & A3 & S3 & K3 & F3 & L3).
-    destruct va as [i0|?|?| |? ? ?]; try exact Logic.I.
-    destruct vb as [hi|?|?| |? ? ?]; try exact Logic.I. cbn [inj] in *.
-    cbv zeta.
-    assert (Hcx3 : cell_get g3 c'x = Some (VInt i0)) by exact (K3 _ _ Hcx2 Hn2).
-    assert (Hn3 : forall c k, ~ b3 c c'x k).
-    { intros c k Hbc. destruct (proj2 E3 c c'x k Hbc) as [H0|[_ H2]]; [exact (Hn2 c k H0)|]. cbn [g2 cells] in H2. rewrite app_length in H2. unfold c'x in H2. rewrite Nnat.Nat2N.id in H2. cbn [length] in H2. lia. }
-    destruct (frames g3) as [|f3 R3'] eqn:Ef3; [exact (False_ind _ (proj2 (Rfr2_ne _ _ _ _ (cl_fr _ _ _ _ _ _ _ _ _ _ _ _ _ HCg3)) Ef3))|].
-    assert (ER : R3' = R) by (cbn [g2 frames tl] in T3; exact T3). subst R3'.
-    assert (Hax3 : assoc x (vars f3) = Some c'x).
-    { pose proof (proj2 (F3 x ltac:(apply own_reg_not_src; exact (proj1 Hx)))) as H. rewrite Ef3 in H. cbn [top_vars g2 frames vars] in H. rewrite H. apply assoc_set_same. }
-    pose proof (Cl_declare_late path prog (fun y => y <> x) P cb CD' base name SF b1 b3 B env sb g3 x (RInt i0) c'x sc0 l' f1 f3 R HCg3
-                  (fun y Hne _ => Hne) ltac:(rewrite <- Ef1; exact (cl_fr _ _ _ _ _ _ _ _ _ _ _ _ _ HC1t)) (proj1 E3) El Ef3 Hx Hax3 Logic.I Hcx3 Hn3
-                  ltac:(rewrite El; exact Hn) HxBn) as HC3'. cbv zeta in HC3'.
-    pose proof (Cl_cd path prog P cb CD' CD base name SF _ _ _ _ _ HC3'
-                  (fun y k E => match cl_cap _ _ _ _ _ _ _ _ _ _ _ _ _ HC1t y k E with
-                                | conj Hy (ex_intro _ c (ex_intro _ c' (conj A1 (conj A2 A3)))) =>
-                                  conj Hy (ex_intro _ c (ex_intro _ c' (conj A1 (conj A2 (or_introl (proj1 E3 _ _ _ A3))))))
-                                end)) as HC3.
-    assert (Edec : declare env sb x (RInt i0) = ({| locals := assoc_set x (N.of_nat (length (store sb))) sc0 :: l'; captured := captured env; cur := cur env |},
-                                                 {| store := store sb ++ [RInt i0]; rout := rout sb |})) by (unfold declare, alloc; rewrite El; reflexivity).
-    rewrite Edec.
-    assert (SM03 : smid b s a g b3 sb a3 g3).
-    { eapply smid_trans; [exact SM1|]. eapply smid_trans; [exact SM12|exact SM3]. }
-    apply (Hcont (add_pair b3 (N.of_nat (length (store sb))) c'x KD) sb a3 g3 hi HC3).
-    + unfold smid in SM03 |- *. destruct SM03 as (R0 & [Ele Efr] & T0 & A0 & S0 & K0 & [L0a L0b]).
-      split; [exact R0|]. split.
-      { split; [intros c c' k Hbc; left; exact (Ele _ _ _ Hbc)|].
-        intros c c' k [Hbc|(-> & -> & ->)]; [exact (Efr _ _ _ Hbc)|right]. unfold c'x. rewrite !Nnat.Nat2N.id. split; [exact L0a|].
-        unfold smid in SM1. destruct SM1 as (_ & _ & _ & _ & _ & _ & [_ X]). exact X. }
-      split; [exact T0|]. split; [exact A0|]. split; [exact S0|]. split; [exact K0|].
-      split; [cbn [store]; rewrite app_length; lia|exact L0b].
-    + apply (lkeep_trans lr (frames g) (frames g1) (frames g3)); [exact LK1|]. apply (lkeep_trans lr (frames g1) (frames g2) (frames g3)); [exact LK12|].
-      rewrite Ef3. exact LK3.
-    + exact Hip3.
-    + exact Hops3.
-    + destruct A3 as (_ & _ & X3). cbn [a2 set_ip set_ops a_cb] in X3. congruence.
-    + rewrite S3. cbn [a2 set_ip set_ops a_ss]. exact Hss1.
-    + rewrite Ef3. reflexivity.
-    + rewrite Ef3. exact Hax3.
-    + right. auto.
+  assert (Hdel0 : assoc_del x (assoc_set x cx sc0) = sc0) by (apply assoc_del_set_absent; exact (proj1 Hsc0)).
+  set (F6 := {| lab := lab F4; vars := assoc_set x c'x (vars F4) |}) in *.
+  assert (Ef6 : frames g6 = F6 :: R) by reflexivity.
+  assert (HaxF2 : assoc x (vars F6) = Some c'x) by (unfold F6; cbn [vars]; apply assoc_set_same).
+  assert (HaeF2 : assoc endr (vars F6) = Some ce) by (unfold F6; cbn [vars]; rewrite assoc_set_other by (intros E; exact (Hie (eq_sym E))); exact HaeF4).
+  assert (HasF2 : assoc startr (vars F6) = Some c's) by (unfold F6; cbn [vars]; rewrite assoc_set_other by (intros E; exact (His (eq_sym E))); exact HasF4).
+  assert (HndF2 : keys_nd (vars F6)).
+  { pose proof (cl_nd _ _ _ _ _ _ _ _ _ _ _ _ _ HC6) as Hnd. rewrite Ef6 in Hnd. inversion Hnd; assumption. }
+  assert (Hlt5 : N.to_nat ce < length (cells g5t)) by (apply nth_error_Some; unfold cell_get in Hce5; change (cells g5t) with (cells g5); congruence).
+  assert (Hce6 : cell_get g6 ce = Some (VInt hi)).
+  { unfold cell_get in *. cbn [g6 cells]. rewrite nth_error_app1 by exact Hlt5. exact Hce5. }
+  assert (Hbx : b3 cx c'x KD) by (right; auto).
+  assert (Hn6 : forall c k, ~ b3 c ce k).
+  { intros c k [Hbc|(_ & E & _)]; [exact (Hn4 c k Hbc)|]. unfold c'x in E. rewrite E, Nnat.Nat2N.id in Hlt5. lia. }
+  assert (SMH : smid b s a g b3 sD a6 g6).
+  { eapply smid_trans; [exact SM5|]. unfold smid. split; [exact R6|]. split; [exact He6|].
+    split; [cbn [g6 frames tl]; rewrite Ef5; reflexivity|]. split; [repeat split|]. split; [reflexivity|].
+    split; [apply (keep_cells_app _ _ _ [VInt i0]); reflexivity|].
+    split; [cbn [sD store]; rewrite app_length; lia|cbn [g6 cells g5t trc add_trace]; rewrite app_length; lia]. }
+  assert (LKH : lkeep lr (frames g) (frames g6)).
+  { apply (lkeep_trans lr (frames g) (frames g5) (frames g6)); [exact LK5|].
+    rewrite Ef5, Ef6. apply lk_bind. intros j. apply uname0_not_lregn. exact Hx. }
+  assert (Edec : declare env s2 x (RInt i0) = (env1, sD)) by (unfold declare, alloc; rewrite El; reflexivity).
+  rewrite Edec.
+  set (lL := assoc_set x cx sc0 :: l') in *.
+  apply (spost_seq b B rb lr sl bt ct fin env s a g b3 env1 sD a6 g6 _ SMH LKH);
+    [split; [cbn [env1 locals tl]; rewrite El; reflexivity|cbn [env1 locals]; discriminate]|].
+  eapply (from_loop body Hbody incl step x x endr false lr (S lr1) sl bt ct B B2 B1 rb kc lbd ls (k0 + length fa + length fb) fin cbody fbd cs fuel
+            ltac:(lia) hi cx c'x ce F6 R lL (sc0 :: l') (fun e => undeclare e x)).
+  - exact Eb.
+  - exact Est.
+  - exact Ebc.
+  - exact Hinbd.
+  - unfold lr1. cbn [from_lr1]. lia.
+  - reflexivity.
+  - reflexivity.
+  - exact Hc1.
+  - exact Hc2'.
+  - exact Hc3'.
+  - exact Hw'.
+  - exact Hib'.
+  - exact Hcs'.
+  - exact Hst'.
+  - exact Hj'.
+  - eapply lrok_mono; [exact Hlrk|]. unfold lr1; cbn [from_lr1]. unfold fin, kd, kj, kst, ks, kb, kw, kc, k3, k1 in *. lia.
+  - unfold fin. lia.
+  - exact Hend.
+  - cbn [lL lookup_scopes]. now rewrite assoc_set_same.
+  - cbn [find_in_function]. now rewrite HaxF2.
+  - exact HaeF2.
+  - discriminate.
+  - split; [discriminate|reflexivity].
+  - intros envX EX. eapply bound2_eq; [exact Hb2|]. rewrite EX. reflexivity.
+  - intros envX EX. eapply bound2_eq; [exact Hb|]. rewrite EX, El. reflexivity.
+  - intros bB env2 sX g2' HCB Htl2 Hne2 _ _ HbxB.
+    destruct (cl_B _ _ _ _ _ _ _ _ _ _ _ _ _ HCB x KD ltac:(cbn [B2 assoc]; now rewrite str_eqb_refl)) as (_ & c2 & c2' & Y1 & Y2 & Y3).
+    assert (Hlx2 : lookup_scopes x (locals env2) = Some cx).
+    { destruct (locals env2) as [|sc2 l2] eqn:E2l; [congruence|]. cbn [tl] in Htl2. subst l2.
+      apply NS_lookup_tl; [rewrite <- E2l; exact (cl_ns _ _ _ _ _ _ _ _ _ _ _ _ _ HCB)|exact (proj2 (proj2 Hx))|].
+      cbn [lL lookup_scopes]. now rewrite assoc_set_same. }
+    rewrite Hlx2 in Y1. inversion Y1; subst c2.
+    destruct (proj2 (cl_heap _ _ _ _ _ _ _ _ _ _ _ _ _ HCB) _ _ _ _ _ _ Y3 HbxB) as [Hiff _]. assert (c2' = c'x) by (apply Hiff; reflexivity). congruence.
+  - reflexivity.
+  - intros envX EX. unfold undeclare. rewrite EX. cbn [locals lL]. now rewrite Hdel0.
+  - intros k E. exact (src_name_not_reg x k (proj1 Hx) E).
+  - (* leaving the loop: delete the counter and the two registers *)
+    intros a7 g7 env7 s7 b7 El7 HC7' Ef7 Hip7 Hops7. change (a_ip a7 = kd) in Hip7.
+    set (vs := assoc_del endr (assoc_del startr (assoc_del x (vars F6)))).
+    set (i_d := mkI OP_DELETE_NAME_SCOPED [x; startr; endr]) in *.
+    set (g7t := trc name a7 g7 i_d).
+    exists (set_ip a7 (S kd)), (with_frames g7t ({| lab := lab F6; vars := vs |} :: R)).
+    assert (Hvs : forall y, y <> x -> y <> startr -> y <> endr -> assoc y vs = assoc y (vars F6)) by (intros y H1 H2 H3; unfold vs; now rewrite !assoc_del_other by assumption).
+    split.
+    { rewrite <- Hip7. eapply (xstep_next prog name code a7 g7 i_d _ (a_ip a7) a7); [reflexivity|rewrite Hip7; atp Hdel|apply dec_delete3|].
+      exact (exec_delete3 x startr endr a7 g7t F6 R c'x c's ce Ef7 His Hie Hse HaxF2 HasF2 HaeF2). }
+    split; [cbn [set_ip a_ip]; unfold fin; lia|]. split; [exact Hops7|]. split; [repeat split|]. split; [reflexivity|]. split; [reflexivity|].
+    split; [reflexivity|]. split.
+    { intros j Hjj. cbn [with_frames frames find_in_function vars lab]. rewrite Hvs; [reflexivity| |exact (proj1 (proj2 (Hlkj j Hjj)))|exact (proj1 (Hlkj j Hjj))].
+      intros E. exact (uname0_not_lregn x j Hx (eq_sym E)). }
+    split.
+    { apply (Cl_undeclare path prog P cb CD base name SF b7 B env7 s7 g7t x KD (assoc_set x cx sc0) l' F6 R vs (Cl_trc _ _ _ _ _ _ _ _ HC7') El7 Ef7 Hx HxBn).
+      + intros y Hy Hne0. apply Hvs; [exact Hne0| |]; intros ->; exact (lregn_not_uname0 _ Hy).
+      + unfold vs. rewrite !assoc_del_other by (first [exact Hie|exact His]). now apply assoc_del_nd_none.
+      + rewrite Hdel0. exact (proj1 Hsc0).
+      + exact (proj2 Hsc0).
+      + unfold vs. apply keys_nd_assoc_del. apply keys_nd_assoc_del. apply keys_nd_assoc_del. exact HndF2. }
+    unfold undeclare. rewrite El7. cbn [locals lL]. now rewrite Hdel0.
+  - reflexivity.
+  - exact HC6.
+  - exact Ef6.
+  - reflexivity.
+  - cbn [a6 set_ip set_ops a_cb]. exact Hcb5.
+  - cbn [a6 set_ip set_ops a_ss lL length]. rewrite Hss5. cbn [length] in Hss. exact Hss.
+  - exact Hbx.
+  - exact Hce6.
+  - exact Hn6.
 Qed.
 Theorem sspec_all : forall st, sspec st.
 Proof.
